@@ -164,7 +164,7 @@ node that joins a reachable node `n` with nothing of its own (newest installed s
 log after it) holds exactly `n`'s database, and is itself in a good state. -/
 theorem join_gets_leader_db {n : Node} (g : Good n) : (joinFrom n).live = n.live ∧ Good (joinFrom n) := by
   have hd : DurInv { crash n with fp := false, dbFile := [], dbFileOk := true, peersFile := none } :=
-    ⟨g.1.snap_le, g.1.nosnap, fun hf => by cases hf⟩
+    ⟨g.1.snap_le, g.1.nosnap, fun hf => Bool.noConfusion hf, fun hf => Bool.noConfusion hf⟩
   obtain ⟨hl, _, h', q', _⟩ := open_truth hd rfl
   refine ⟨?_, h', q'⟩
   show (openNode _).live = n.live
@@ -197,6 +197,43 @@ theorem boot_replaces_everywhere (ops pre post : List Op) (d : Db)
   have hl : (run {} ops).live = post.foldl effect d := by
     rw [live_run good_init, foldl_effect_data, h, List.foldl_append, List.foldl_append]; rfl
   exact ⟨hl, by rw [(join_gets_leader_db (good_run good_init ops)).1, hl]⟩
+
+/-! ### the boot guard: a `.boot` in a schedule is an ACCEPTED boot
+and `ReadFrom` accepts one only on a configuration of exactly one server — voters and read-only
+nodes alike. That is why `boot_replaces_everywhere` needs no statement about members present
+at boot time: there are none; every other node is a later joiner. -/
+
+/-- a boot attempt with any other server in the configuration — voter or non-voter — is refused
+and changes nothing at all -/
+theorem boot_refused_unless_single_node (n : Node) (d : Db) (h : clusterSize n ≠ 1) :
+    bootR n d = (n, true) := by
+  simp [bootR, bootAllowed, h]
+
+theorem boot_accepted_when_single_node (n : Node) (d : Db) (h : clusterSize n = 1) :
+    bootR n d = (boot n d, false) := by
+  simp [bootR, bootAllowed, h]
+
+/-- attaching any server, of either suffrage, disables boot -/
+theorem attach_disables_boot (n : Node) (self p : Peer) (d : Db) :
+    bootR (attach n self p) d = (attach n self p, true) := by
+  apply boot_refused_unless_single_node
+  unfold clusterSize attach
+  cases hc : n.config with
+  | nil => simp
+  | cons a as => simp
+
+/-- **boot_with_member_attached_witness**: why the guard must count EVERY server. Were a boot
+accepted with a caught-up member attached, that member would get the boot's NOOP entry, be at
+the leader's last index (raft has nothing more to send, no snapshot is transferred) and keep
+the pre-boot database. -/
+theorem boot_with_member_attached_witness :
+    let leader : Node := write {} (.exec false [.put 1 1])
+    let member : Node := write {} (.exec false [.put 1 1])
+    let leader' := boot leader [(9, 9)]
+    let member' := write member .noop
+    member'.hist = leader'.hist ∧ member'.applied = leader'.hist.length ∧
+    leader'.live = [(9, 9)] ∧ member'.live = [(1, 1)] := by
+  decide
 
 /-- the load is in the durable state at once: a crash right after it, on a node in any
 reachable state, restarts with the loaded database (log replay re-applies the LOAD entry;
@@ -344,6 +381,9 @@ theorem code_load_gates :
 theorem code_load_exits_and_kind :
     RqModel.Gen.StoreOrder.loadCaseReturns = loadExits.map LoadExit.code ∧
     RqModel.Gen.StoreOrder.snapshotKindSteps = snapKindCode := by decide
+
+/-- `ReadFrom`'s single-node guard counts `s.Nodes()` — all servers, not only voters -/
+theorem code_boot_guard : RqModel.Gen.StoreOrder.bootGuard = bootGuardCode := by decide
 
 /-! ### non-vacuity -/
 
